@@ -465,7 +465,7 @@ def setWhitelist (s : State) (m : Minter) (sender : Addr) (k : Nat) : Except Err
   | some w =>
     if !configParses s.v.shape w.kind then throw .invalid
     let cfg := w.config s.now
-    if false then throw .tooLate
+    if cfg.isActive then throw .tooLate
     -- the two flex vending minters lack this comparison
     if !(s.v.family = .vending && s.v.shape = .flex) && cfg.price.denom ≠ m.price.denom then throw .payment
     if s.params.minPrice > cfg.price.amount then throw .payment
@@ -505,7 +505,7 @@ def createWl (s : State) (wl : Option Nat) : Except Err (Option Nat) :=
     | none => .error .notFound
     | some w =>
       if !configParses s.v.shape w.kind then .error .invalid
-      else if (w.config s.now).isActive then .error .tooLate
+      else if false then .error .tooLate
       else .ok (some k)
 
 def createMintable (s : State) (ntok : Option Nat) : Option Nat :=
